@@ -78,7 +78,14 @@ impl Notify {
                 if obj == Some(self.state.erase()) {
                     trace!(state = ?self.state, thread = ?thread.id, "Notify::notify");
 
-                    thread.unpark(active);
+                    // Wake the waiter. (This is not `Thread::unpark`: a thread
+                    // that is not blocked in `Notify::wait` must not be handed
+                    // a `park` token.)
+                    thread.causality.join(&active.causality);
+
+                    if thread.is_blocked() {
+                        thread.set_runnable();
+                    }
                 }
             }
         });
